@@ -37,6 +37,7 @@ type Srv struct {
 	Strace  []string // when set: strace arguments placed before the binary
 	Env     []string
 	hc      *http.Client
+	weKilled atomic.Bool
 }
 
 var portCounter atomic.Int64
@@ -214,11 +215,28 @@ func (s *Srv) Kill() {
 	if s.cmd == nil {
 		return
 	}
+	s.weKilled.Store(true)
 	syscall.Kill(-s.cmd.Process.Pid, syscall.SIGKILL)
 	select {
 	case <-s.exited:
 	case <-time.After(5 * time.Second):
 	}
+}
+
+// KilledFromOutside: the process ended by SIGKILL that this driver did not send and left no panic / fatal
+// error in its log. A Go program that dies on its own always writes a trace; a silent SIGKILL comes from the
+// sandbox (OOM killer, another job's clean-up) and is inconclusive, not a verdict on the server.
+func (s *Srv) KilledFromOutside() bool {
+	if !s.Exited() || s.weKilled.Load() || s.Crashed() != "" {
+		return false
+	}
+	var ee *exec.ExitError
+	if errors.As(s.exitErr, &ee) {
+		if ws, ok := ee.Sys().(syscall.WaitStatus); ok && ws.Signaled() && ws.Signal() == syscall.SIGKILL {
+			return true
+		}
+	}
+	return false
 }
 
 func (s *Srv) WaitExit(d time.Duration) bool {
